@@ -346,6 +346,28 @@ E2_RULE = ("crash case = one scripted KeyValueStore history (4-16 keys, puts/del
            "of; the same oracle judges the directory it leaves. ")
 
 
+def _e3_job(focus, tier, name="threads", **kw):
+    a = dict(runs=q(tier, 6, 150), scale=q(tier, 1, 2))
+    a.update(kw)
+    return job(name, "e3", shards=16, timeout=3000, focus=focus, **a)
+
+
+E3_RULE = ("concurrent run = one child process: 2-6 client threads execute pre-generated rounds (1-6 calls per thread "
+           "per round, rounds separated by a barrier and a spin gate) of put / delete / batch of 2-4 distinct keys / "
+           "point read / scan (full or between two keys) / held cursor (walked with next, prev and seeks between rounds, "
+           "drained at a random later round or at the end) over 3-10 keys with unique values, against a KeyValueStore "
+           "whose memtable_thread and 1-3 compaction_thread loops run for real (memtable 1 B - 8 KiB so rollovers and "
+           "flushes happen every few writes; L0 thresholds 1-4 / +1..4) while a yield hook sleeps 0-6 ms at the named "
+           "points between the store's critical sections (one hot site and one slow client per run). Every call is "
+           "recorded at the client boundary with invoke and return stamps of one SeqCst counter; a scan's interval is "
+           "the range_scan() call. Offline, a Wing-Gong search with memoisation on (per-thread frontier, map state) "
+           "decides round by round whether a linearization exists in which batches are atomic multi-key writes and "
+           "scans atomic multi-key reads, carrying the set of possible states from round to round; a failing round is "
+           "re-searched without held cursors to attribute it. A monitor thread samples the park registry every 250 ms: "
+           "ingest parked on `stall`, all compaction threads parked on `compact` and no registry change for 4 s = "
+           "deadlock. At quiescence the manifest ledger is re-checked. ")
+
+
 def _e1(prop, technique, level_text, rule_tail, floors, quick_h=10):
     REGISTRY[prop] = {
         "level": "exploration",
@@ -359,7 +381,8 @@ def _e1(prop, technique, level_text, rule_tail, floors, quick_h=10):
         "assumptions": ["ingested files carry timestamps above everything ingested before (tree mode)",
                         "a batch that names a key twice applies its last entry"],
         "jobs": (lambda p, qh: (lambda tier: _e1_jobs(p, tier, quick_h=qh) + (
-            [_e2_job(p, tier, name="crash-images", faults=0, second=0)] if p in ("C04", "C08") else [])))(prop, quick_h),
+            [_e2_job(p, tier, name="crash-images", faults=0, second=0)] if p in ("C04", "C08") else []) + (
+            [_e3_job(p, tier)] if p in ("C04", "C07") else [])))(prop, quick_h),
         "floors": floors,
     }
 
@@ -436,4 +459,50 @@ REGISTRY["C02"] = {
                             "crash.points.flush": 200, "crash.points.verify": 100, "crash.points.write": 100,
                             "crash.second_crashes_inside_recovery": 50, "fault.surfaced_as_error": 100,
                             "recoveries.matched_acknowledged_prefix": 1500},
+}
+
+
+# ------------------------------------------------------------------------------------------- C06
+REGISTRY["C06"] = {
+    "level": "exploration",
+    "technique": "runtime monitor over recorded client histories: invoke/return-stamped puts, deletes, batches, reads, scans and held cursors of 2-6 threads against the real store with real flush and compaction threads and injected delays; offline Wing-Gong linearizability search per barrier-delimited round with batches as atomic multi-key writes and scans as atomic multi-key reads",
+    "level_text": ("Exploration of sampled schedules: hundreds (quick) to tens of thousands (thorough) of short concurrent "
+                   "runs, each checked completely (the search is exact for the recorded history, budgeted at 3M nodes per "
+                   "round and start state; a budget overrun is reported as inconclusive). Schedules the runs do not "
+                   "produce are not covered."),
+    "level_note": ("Trusted: the SeqCst logical clock brackets every call; the sequential map specification; the yield hooks "
+                   "sit between critical sections only (no store lock held). TSan/ASan builds of the same workload run in "
+                   "the thorough tier."),
+    "rule": E3_RULE + ("Non-trivial = run with >=10 writes, >=5 operations overlapping an operation of another thread and "
+                       ">=1 flush; distinct = hash of the recorded stamps."),
+    "assumptions": ["the linearization point of a scan lies inside the range_scan() call that created its cursor"],
+    "jobs": lambda tier: [_e3_job("C06", tier)],
+    "floors": lambda tier: {"distinct_nontrivial": 60, "lin.operations_overlapping_another_thread": 10000,
+                            "lin.rounds_checked": 1500, "ops.batch": 2000, "ops.scan": 1000, "store.flushes": 500,
+                            "store.compactions": 1000},
+}
+
+
+# ------------------------------------------------------------------------------------------- C20
+REGISTRY["C20"] = {
+    "level": "exploration",
+    "technique": "runtime monitors: (b) in single-stepped histories, whenever the tree says ingest would stall, compaction steps must relieve it within a bound (a stall with nothing selectable is reported with the tree shape); (a,c) in concurrent runs a monitor thread samples the store's park registry and declares a deadlock only when the ingest is parked on `stall`, every compaction thread is parked on `compact` and the registry stands still",
+    "level_text": ("Exploration: tree shapes reached by generated histories under small stall / mandatory thresholds and "
+                   "max-compaction-files 6-64 (stepper), and sampled schedules of 2-4 writers, the flush thread and 1-3 "
+                   "compaction threads with memtables of 1-64 bytes so that ingest outruns compaction (threads). "
+                   "'Eventually' is restated as bounded progress: relieved within 4*files+64 compaction steps (stepper); "
+                   "no registry change for 4 s with all store threads parked (threads)."),
+    "level_note": ("Trusted: the park registry is updated under the mutex of the condition variable it describes; the 4 s "
+                   "stand-still is a wall-clock guard against a woken-but-not-yet-scheduled thread, the verdict itself is "
+                   "the logical predicate (who could still notify). Liveness beyond these bounds is out of reach of runtime "
+                   "monitoring."),
+    "rule": E1_RULE + " For C20 the stepper runs with memtable 1 B, stall threshold 2-4, mandatory threshold 1-2 and "
+            "max_compaction_files 6-64; non-trivial = history that reached a state in which ingest would stall. " + E3_RULE +
+            "For C20 the runs are write-heavy with memtable 1-64 B and stall = mandatory + 1; non-trivial as for C06.",
+    "assumptions": ["writers never wait for memtable space in this store, so the party that can be held back forever is the flush thread's ingest"],
+    "jobs": lambda tier: _e1_jobs("C20", tier, quick_h=12) + [_e3_job("C20", tier, runs=q(tier, 12, 300)),
+                          job("staging-race", "c20race", shards=16, timeout=3000, histories=q(tier, 24, 400), steps=120)],
+    "floors": lambda tier: {"distinct_nontrivial": 60, "c20.states_with_ingest_stalled": 2000, "c20.stalls_relieved": 300,
+                            "c20.samples_with_ingest_stalled": 20, "store.flushes": 1000, "store.compactions": 1000,
+                            "pass2.second_thread_started_while_first_is_held_after_apply": 3},
 }
